@@ -127,6 +127,7 @@ let show_df (df : dataframe) : string =
   ^ " CLS=" ^ cat (List.map (fun (l, i) -> hex_of_bytes l ^ "=" ^ dec_of_z i ^ ",") df.classes)
   ^ " EX=" ^ cat (List.map (fun e -> show_value e.e_output ^ "|" ^ cat (List.map (fun v -> show_value v ^ ",") e.e_input) ^ ";")
                     df.dataset)
+  ^ " VALID=" ^ (match is_valid df with Ok true -> "1" | Ok false -> "0" | _ -> "X")
 
 let parse_filter (t : string) : filter_t =
   match String.split_on_char ':' t with
@@ -187,7 +188,7 @@ let () =
               ^ " RUN=" ^ cat (List.map (fun e -> cat (List.map (fun vi ->
                                  (match run_variable vi e with Ok x -> show_value x | OOB s -> "OOB" | Exn _ -> "EXN") ^ ",") vars) ^ ";")
                                 first3)
-            | Exn e -> base ^ " TERM-EXN " ^ show_exn e
+            | Exn e -> "EXN " ^ show_exn e        (* the src_problem constructor throws *)
             | OOB s -> base ^ " TERM-OOB " ^ show_site s))
         | ["xrff"; v; a; i; flt] ->
           if a = "ERR" then print_endline "EXN data_format" else
